@@ -1497,6 +1497,169 @@ func addmpCase(rng *rand.Rand, corrupt bool) *wire.Case {
 	return c
 }
 
+// ---------------------------------------------------------------- many outers, irregular layout
+
+// genIrregular: n outers of very different widths (star rings stretched in x by 1..6) placed in
+// rows with random gaps and offsets, so that west edges, east edges and sizes interleave
+// irregularly; wide outers get a small hole in their eastern part, some others a hole near the
+// centre.  n is chosen around size thresholds (12/13, 16/17, 32/33).
+func genIrregular(rng *rand.Rand, n int) []gtPoly {
+	for {
+		var sc []gtPoly
+		y := int64(40)
+		for len(sc) < n && y < 8000 {
+			x := int64(20 + rng.Intn(200))
+			perRow := 2 + rng.Intn(6)
+			for k := 0; k < perRow && len(sc) < n; k++ {
+				r := int64(8 + rng.Intn(13))
+				f := []int64{1, 1, 2, 4, 6}[rng.Intn(5)]
+				cx := x + f*r + 2
+				if cx+f*r+2 >= coordLim-10 {
+					break
+				}
+				c := pt{cx, y}
+				base := starRing(rng, pt{0, 0}, r/2+1, r, 4+rng.Intn(5))
+				if base == nil {
+					continue
+				}
+				outer := make([]pt, len(base))
+				for i, v := range base {
+					outer[i] = pt{cx + f*v.x, y + v.y}
+				}
+				if !simpleRing(outer) || area2(outer) <= 0 || !isKernel(outer, c) {
+					continue
+				}
+				cc := c
+				p := gtPoly{outer: outer, c: &cc}
+				var hc pt
+				switch {
+				case f >= 4 && rng.Intn(4) > 0:
+					hc = pt{cx + f*r/3 + int64(rng.Intn(3)), y} // eastern part of a wide outer
+				case rng.Intn(3) == 0:
+					hc = pt{cx + int64(rng.Intn(3)) - 1, y}
+				}
+				if hc != (pt{}) {
+					if hole := starRing(rng, hc, 1, 3, 3+rng.Intn(2)); hole != nil &&
+						strictlyInside(hole, outer) && insideStar(outer, [][]pt{hole}, c) {
+						p.holes = [][]pt{hole}
+					}
+				}
+				sc = append(sc, p)
+				x = cx + f*r + 2 + int64(3+rng.Intn(40))
+			}
+			y += 50
+		}
+		if len(sc) != n {
+			continue
+		}
+		for i := range sc {
+			if rng.Intn(2) == 0 {
+				sc[i].outer = reversed(sc[i].outer)
+			}
+			sc[i].outer = rotated(sc[i].outer, rng.Intn(len(sc[i].outer)))
+		}
+		rng.Shuffle(len(sc), func(i, j int) { sc[i], sc[j] = sc[j], sc[i] })
+		ok := true
+		func() {
+			defer func() {
+				if recover() != nil {
+					ok = false
+				}
+			}()
+			assertScene(sc)
+		}()
+		if ok {
+			return sc
+		}
+	}
+}
+
+// irregularCase: fewer runs than specCase (the scenes are large)
+func irregularCase(rng *rand.Rand, sc []gtPoly) *wire.Case {
+	in := cutScene(rng, sc, func(ring, n int) int { return 1 + rng.Intn(2) })
+	n := len(in.members)
+	exp := expectedOrients(in)
+	runs := []runObs{doRun(in, 0, false, zeros(n)), doRun(in, 1, false, partial(rng, exp))}
+	c := sceneCase(in, runs, []annotObs{doAnnot(in, zeros(n))})
+	c.Class = "irregular"
+	return c
+}
+
+// ---------------------------------------------------------------- big rings
+
+// comb: a counter-clockwise simple band with J narrow inlets on each shore, interleaved like two
+// combs; 16*J vertices, every shore repeats with a period of 8 vertices (integer version of the
+// classic counter-example to orientation-by-sampling: every 8th vertex is an inlet tip, and the
+// tips alone trace a clockwise polygon).
+func comb(J int) []pt {
+	var q [][2]int64 // quarter units
+	for j := 0; j < J; j++ {
+		x := 16 * int64(j)
+		if j < J-1 {
+			q = append(q, [2]int64{x + 4, 4}, [2]int64{x + 5, -8}, [2]int64{x + 8, -8}, [2]int64{x + 10, -8},
+				[2]int64{x + 12, -8}, [2]int64{x + 14, -8}, [2]int64{x + 16, -8}, [2]int64{x + 19, -8})
+		} else {
+			q = append(q, [2]int64{x + 4, 4}, [2]int64{x + 5, -8}, [2]int64{x + 8, -8}, [2]int64{x + 16, -8},
+				[2]int64{x + 16, 0}, [2]int64{x + 16, 8}, [2]int64{x + 14, 8}, [2]int64{x + 13, 8})
+		}
+	}
+	for j := J - 1; j >= 0; j-- {
+		x := 16 * int64(j)
+		if j > 0 {
+			q = append(q, [2]int64{x + 12, -4}, [2]int64{x + 11, 8}, [2]int64{x + 8, 8}, [2]int64{x + 6, 8},
+				[2]int64{x + 4, 8}, [2]int64{x + 2, 8}, [2]int64{x, 8}, [2]int64{x - 3, 8})
+		} else {
+			q = append(q, [2]int64{x + 12, -4}, [2]int64{x + 11, 8}, [2]int64{x + 8, 8}, [2]int64{x, 8},
+				[2]int64{x, 0}, [2]int64{x, -8}, [2]int64{x + 2, -8}, [2]int64{x + 3, -8})
+		}
+	}
+	r := make([]pt, len(q))
+	for i, v := range q {
+		r[i] = pt{v[0] + 10, v[1] + 20}
+	}
+	return r
+}
+
+// combCase: the comb ring cut at the given vertex indexes (first must be 0), every second piece
+// reversed, members listed so that the piece starting at vertex 0 comes LAST (the joiner then
+// starts the ring at vertex 0); one un-annotated and one annotated Convert run.
+func combCase(rng *rand.Rand, J int, cuts []int) *wire.Case {
+	ring := comb(J)
+	sc := []gtPoly{{outer: ring}}
+	assertScene(sc)
+	in := &input{e: embIdentity, spec: sc, relType: "multipolygon"}
+	n := len(ring)
+	for i, p := range ring {
+		in.nodes = append(in.nodes, rawNode{int64(i) + 1, p})
+	}
+	for k, from := range cuts {
+		to := n
+		if k+1 < len(cuts) {
+			to = cuts[k+1]
+		}
+		var ids []int64
+		for i := from; i <= to; i++ {
+			ids = append(ids, int64(i%n)+1)
+		}
+		pc := piece{0, from, to - from, k%2 == 1}
+		if pc.rev {
+			for a, b := 0, len(ids)-1; a < b; a, b = a+1, b-1 {
+				ids[a], ids[b] = ids[b], ids[a]
+			}
+		}
+		w := rawWay{id: int64(100 + k), nodes: ids}
+		in.ways = append(in.ways, w)
+		// prepend: the first piece is the last member
+		in.members = append([]rawMember{{true, w.id, 0}}, in.members...)
+		in.pieces = append([]piece{pc}, in.pieces...)
+	}
+	m := len(in.members)
+	runs := []runObs{doRun(in, 0, false, zeros(m)), doRun(in, 0, false, expectedOrients(in))}
+	c := sceneCase(in, runs, nil)
+	c.Class = fmt.Sprintf("big_ring:%d", n+1)
+	return c
+}
+
 // ---------------------------------------------------------------- several relations in one Convert call
 
 // multiScene: a star ring around c split by the two spokes c-v_i, c-v_j into two neighbouring
@@ -2030,6 +2193,30 @@ func main() {
 		if len(keep) < 400 {
 			keep = append(keep, in)
 		}
+	}
+	// 1a. many outers around size thresholds, irregular layout
+	sizes := []int{12, 13, 16, 17, 18, 24, 32, 33}
+	nirr := sc(16)
+	if a.Tier == "thorough" {
+		nirr = sc(240)
+	}
+	for i := 0; i < nirr; i++ {
+		n := sizes[i%len(sizes)]
+		w.Add(irregularCase(rng, genIrregular(rng, n)))
+		w.Count(fmt.Sprintf("irregular_outers:%d", n))
+	}
+	// 1a'. rings around the 2048 point mark (comb-shaped: adversarial for sampling)
+	if a.Tier == "thorough" {
+		for _, J := range []int{127, 128, 129, 256} {
+			n := 16 * J
+			for al := 0; al < 8; al++ {
+				w.Add(combCase(rng, J, []int{0, n/3 + al, 2*n/3 + 2*al}))
+			}
+			w.Add(combCase(rng, J, []int{0}))
+		}
+	} else if a.Scale <= 1.5 {
+		w.Add(combCase(rng, 128, []int{0}))
+		w.Add(combCase(rng, 128, []int{0, 700, 1500}))
 	}
 	// 1b. several relations sharing ways in one Convert call
 	nmulti, nhist := sc(60), sc(60)
